@@ -6,7 +6,9 @@
   `SRel θ S σ`: for every valuation `τ` of the concrete atom names, the concrete value evaluates under `τ` to what the
   symbolic value evaluates to under `θ τ`, where `θ τ` reads a free symbol `x` as the value of the concrete start
   store at `τ` and the symbolic atom `@i` as the concrete atom `@(k+i)` (`k` = number of atoms the concrete path
-  already carries when the symbolic execution starts with none).
+  already carries when the symbolic execution starts with none).  The relations `ORelS` / `PRelS` also record that the
+  concrete atom table is the table `pre` of the concrete start path followed by the symbolic atom table (same
+  families, same parameters) — used by V2 with continuous draws (`PolarProofs/ValidateStepC.lean`).
 
   * `blockS_sim`, `iterS_sim` — symbolic execution is sound for the semantic relation (all nine families).
   * `checkInductiveC_sound0` / `checkInductiveC_sound` — `checkInductiveC cap Γ0 Γ P = .ok true` ⇒ for EVERY n and
@@ -244,9 +246,10 @@ theorem evalCondS_sim {θ : (String → Rat) → String → Rat} {S σ : Store} 
 
 /-! ### right-hand sides -/
 
-/-- symbolic outcome vs. concrete outcome: same weight, values related, `k` more atoms on the concrete side -/
-def ORelS (θ : (String → Rat) → String → Rat) (k : Nat) (o o' : Rat × MPoly × List Atom) : Prop :=
-  o.1 = o'.1 ∧ (∀ τ, MPoly.eval τ o'.2.1 = MPoly.eval (θ τ) o.2.1) ∧ o'.2.2.length = k + o.2.2.length
+/-- symbolic outcome vs. concrete outcome: same weight, values related, the concrete atom table is the table `pre`
+    of the concrete start path followed by the symbolic atom table (same families, same parameters) -/
+def ORelS (θ : (String → Rat) → String → Rat) (pre : List Atom) (o o' : Rat × MPoly × List Atom) : Prop :=
+  o.1 = o'.1 ∧ (∀ τ, MPoly.eval τ o'.2.1 = MPoly.eval (θ τ) o.2.1) ∧ o'.2.2 = pre ++ o.2.2
 
 theorem atom_eval {θ : (String → Rat) → String → Rat} {k : Nat}
     (hθ : ∀ τ i, θ τ (atomName i) = τ (atomName (k + i))) {n n' : Nat} (hlen : n' = k + n) (τ : String → Rat) :
@@ -264,20 +267,20 @@ theorem evalConstsS_sim {θ : (String → Rat) → String → Rat} {S σ : Store
     | @cons _ q' _ qs₂ he' ht' =>
       rw [evalConstS_sim h e he he', ih ht']
 
-theorem mkCat_relS (θ : (String → Rat) → String → Rat) (k : Nat) (at1 at2 : List Atom)
-    (hlen : at2.length = k + at1.length) (qs : List Rat) (j : Nat) :
-    List.Forall₂ (ORelS θ k) (mkCat at1 j qs) (mkCat at2 j qs) := by
+theorem mkCat_relS (θ : (String → Rat) → String → Rat) (pre : List Atom) (at1 at2 : List Atom)
+    (hlen : at2 = pre ++ at1) (qs : List Rat) (j : Nat) :
+    List.Forall₂ (ORelS θ pre) (mkCat at1 j qs) (mkCat at2 j qs) := by
   induction qs generalizing j with
   | nil => exact List.Forall₂.nil
   | cons q t ih =>
     simp only [mkCat]
     exact List.Forall₂.cons ⟨rfl, fun τ => by simp [MPoly.eval_const], hlen⟩ (ih (j + 1))
 
-theorem choiceS_sim {θ : (String → Rat) → String → Rat} {k : Nat} {S σ : Store} (h : SRel θ S σ)
-    {at1 at2 : List Atom} (hlen : at2.length = k + at1.length)
+theorem choiceS_sim {θ : (String → Rat) → String → Rat} {pre : List Atom} {S σ : Store} (h : SRel θ S σ)
+    {at1 at2 : List Atom} (hlen : at2 = pre ++ at1)
     {alts : List (Expr × Expr)} {l l' : List (Rat × MPoly × List Atom)}
     (h1 : List.Forall₂ (SemAlt S at1) alts l) (h2 : List.Forall₂ (SemAlt σ at2) alts l') :
-    List.Forall₂ (ORelS θ k) l l' := by
+    List.Forall₂ (ORelS θ pre) l l' := by
   induction h1 generalizing l' with
   | nil => cases h2; exact List.Forall₂.nil
   | @cons a o t l₁ hao _ ih =>
@@ -288,18 +291,18 @@ theorem choiceS_sim {θ : (String → Rat) → String → Rat} {k : Nat} {S σ :
       · exact evalExprS_sim h a.1 hao.2.1 hao'.2.1
       · rw [hao.2.2, hao'.2.2, hlen]
 
-theorem singleS {θ : (String → Rat) → String → Rat} {k : Nat} {v v' : MPoly} {as as' : List Atom} {a a' : Atom}
-    (hv : ∀ τ, MPoly.eval τ v' = MPoly.eval (θ τ) v) (hlen : as'.length = k + as.length) :
-    List.Forall₂ (ORelS θ k) [(1, v, as ++ [a])] [(1, v', as' ++ [a'])] := by
+theorem singleS {θ : (String → Rat) → String → Rat} {pre : List Atom} {v v' : MPoly} {as as' : List Atom} {a : Atom}
+    (hv : ∀ τ, MPoly.eval τ v' = MPoly.eval (θ τ) v) (hlen : as' = pre ++ as) :
+    List.Forall₂ (ORelS θ pre) [(1, v, as ++ [a])] [(1, v', as' ++ [a])] := by
   refine List.Forall₂.cons ⟨rfl, hv, ?_⟩ List.Forall₂.nil
-  simp only [List.length_append, List.length_cons, List.length_nil]
-  omega
+  simp only [hlen, List.append_assoc]
 
-theorem rhsS_sim {θ : (String → Rat) → String → Rat} {k : Nat}
-    (hθ : ∀ τ i, θ τ (atomName i) = τ (atomName (k + i))) {ps pc : Path} (h : SRel θ ps.vals pc.vals)
-    (hlen : pc.atoms.length = k + ps.atoms.length)
+theorem rhsS_sim {θ : (String → Rat) → String → Rat} {pre : List Atom}
+    (hθ : ∀ τ i, θ τ (atomName i) = τ (atomName (pre.length + i))) {ps pc : Path} (h : SRel θ ps.vals pc.vals)
+    (hlen : pc.atoms = pre ++ ps.atoms)
     (rhs : Rhs) (hok : rhsOKC rhs = true) {os oc : List (Rat × MPoly × List Atom)}
-    (hs : evalRhs ps rhs = .ok os) (hc : evalRhs pc rhs = .ok oc) : List.Forall₂ (ORelS θ k) os oc := by
+    (hs : evalRhs ps rhs = .ok os) (hc : evalRhs pc rhs = .ok oc) : List.Forall₂ (ORelS θ pre) os oc := by
+  have hl : pc.atoms.length = pre.length + ps.atoms.length := by rw [hlen, List.length_append]
   cases rhs with
   | expr e =>
     obtain ⟨v, h1, rfl⟩ := evalRhs_expr_ok hs
@@ -332,7 +335,7 @@ theorem rhsS_sim {θ : (String → Rat) → String → Rat} {k : Nat}
           have := evalConstsS_sim h hq hq'
           subst this
           rw [ho, ho']
-          exact mkCat_relS θ k _ _ hlen qs' 0
+          exact mkCat_relS θ pre _ _ hlen qs' 0
         | du _ _ _ _ hn' => exact absurd (hn.symm.trans hn') (by decide)
       | du a b lo hi hn hp ha hb ho =>
         cases d2 with
@@ -369,7 +372,7 @@ theorem rhsS_sim {θ : (String → Rat) → String → Rat} {k : Nat}
           rw [pure_ok] at hs hc
           subst hs hc
           exact singleS (fun τ => by
-            rw [MPoly.eval_add, MPoly.eval_add, evalExprS_sim h mu hm hm' τ, atom_eval hθ hlen τ]) hlen
+            rw [MPoly.eval_add, MPoly.eval_add, evalExprS_sim h mu hm hm' τ, atom_eval hθ hl τ]) hlen
       · -- Uniform
         rename_i a b
         simp only [evalRhs] at hc
@@ -381,7 +384,7 @@ theorem rhsS_sim {θ : (String → Rat) → String → Rat} {k : Nat}
         subst hs hc
         exact singleS (fun τ => by
           rw [MPoly.eval_add, MPoly.eval_add, MPoly.eval_mul, MPoly.eval_mul, MPoly.eval_sub, MPoly.eval_sub,
-            evalExprS_sim h a hva hva' τ, evalExprS_sim h b hvb hvb' τ, atom_eval hθ hlen τ]) hlen
+            evalExprS_sim h a hva hva' τ, evalExprS_sim h b hvb hvb' τ, atom_eval hθ hl τ]) hlen
       · -- Laplace
         rename_i mu b
         simp only [evalRhs] at hc
@@ -398,7 +401,7 @@ theorem rhsS_sim {θ : (String → Rat) → String → Rat} {k : Nat}
           rw [pure_ok] at hs hc
           subst hs hc
           exact singleS (fun τ => by
-            rw [MPoly.eval_add, MPoly.eval_add, evalExprS_sim h mu hm hm' τ, atom_eval hθ hlen τ]) hlen
+            rw [MPoly.eval_add, MPoly.eval_add, evalExprS_sim h mu hm hm' τ, atom_eval hθ hl τ]) hlen
       · -- Exponential
         rename_i lam
         simp only [evalRhs] at hc
@@ -412,7 +415,7 @@ theorem rhsS_sim {θ : (String → Rat) → String → Rat} {k : Nat}
           simp only [hneg, if_false] at hc
           rw [pure_ok] at hs hc
           subst hs hc
-          exact singleS (atom_eval hθ hlen) hlen
+          exact singleS (atom_eval hθ hl) hlen
       · -- Gamma
         rename_i a b
         simp only [evalRhs] at hc
@@ -429,7 +432,7 @@ theorem rhsS_sim {θ : (String → Rat) → String → Rat} {k : Nat}
           simp only [hneg, if_false] at hc
           rw [pure_ok] at hs hc
           subst hs hc
-          exact singleS (atom_eval hθ hlen) hlen
+          exact singleS (atom_eval hθ hl) hlen
       · -- Beta
         rename_i a b
         simp only [evalRhs] at hc
@@ -446,17 +449,17 @@ theorem rhsS_sim {θ : (String → Rat) → String → Rat} {k : Nat}
           simp only [hneg, if_false] at hc
           rw [pure_ok] at hs hc
           subst hs hc
-          exact singleS (atom_eval hθ hlen) hlen
+          exact singleS (atom_eval hθ hl) hlen
       · exact absurd hs throw_ne_ok
 
 /-! ### statements, blocks, one iteration -/
 
-def PRelS (θ : (String → Rat) → String → Rat) (k : Nat) (a b : Rat × Path) : Prop :=
-  a.1 = b.1 ∧ b.2.atoms.length = k + a.2.atoms.length ∧ SRel θ a.2.vals b.2.vals
+def PRelS (θ : (String → Rat) → String → Rat) (pre : List Atom) (a b : Rat × Path) : Prop :=
+  a.1 = b.1 ∧ b.2.atoms = pre ++ a.2.atoms ∧ SRel θ a.2.vals b.2.vals
 
-theorem outsS_sim {θ : (String → Rat) → String → Rat} {k : Nat} {ps pc : Path} (h : SRel θ ps.vals pc.vals)
-    (x : String) {os oc : List (Rat × MPoly × List Atom)} (ho : List.Forall₂ (ORelS θ k) os oc) :
-    List.Forall₂ (PRelS θ k)
+theorem outsS_sim {θ : (String → Rat) → String → Rat} {pre : List Atom} {ps pc : Path} (h : SRel θ ps.vals pc.vals)
+    (x : String) {os oc : List (Rat × MPoly × List Atom)} (ho : List.Forall₂ (ORelS θ pre) os oc) :
+    List.Forall₂ (PRelS θ pre)
       (os.map (fun o => (o.1, ({ vals := ps.vals.set x o.2.1, atoms := o.2.2 } : Path))))
       (oc.map (fun o => (o.1, ({ vals := pc.vals.set x o.2.1, atoms := o.2.2 } : Path)))) := by
   induction ho with
@@ -465,12 +468,12 @@ theorem outsS_sim {θ : (String → Rat) → String → Rat} {k : Nat} {ps pc : 
     simp only [List.map_cons]
     exact List.Forall₂.cons ⟨hoo.1, hoo.2.2, h.set x _ _ hoo.2.1⟩ ih
 
-theorem assignS_sim {θ : (String → Rat) → String → Rat} {k : Nat}
-    (hθ : ∀ τ i, θ τ (atomName i) = τ (atomName (k + i))) {ps pc : Path} (h : SRel θ ps.vals pc.vals)
-    (hlen : pc.atoms.length = k + ps.atoms.length)
+theorem assignS_sim {θ : (String → Rat) → String → Rat} {pre : List Atom}
+    (hθ : ∀ τ i, θ τ (atomName i) = τ (atomName (pre.length + i))) {ps pc : Path} (h : SRel θ ps.vals pc.vals)
+    (hlen : pc.atoms = pre ++ ps.atoms)
     (x : String) (rhs : Rhs) (g : Cond) (d : String) (hok : rhsOKC rhs = true) {Ds Dc : WD}
     (hs : execStmt (.assign x rhs g d) ps = .ok Ds) (hc : execStmt (.assign x rhs g d) pc = .ok Dc) :
-    List.Forall₂ (PRelS θ k) Ds Dc := by
+    List.Forall₂ (PRelS θ pre) Ds Dc := by
   rw [execStmt] at hs hc
   obtain ⟨b, hb, hs⟩ := bind_ok.mp hs
   obtain ⟨b', hb', hc⟩ := bind_ok.mp hc
@@ -496,19 +499,19 @@ theorem assignS_sim {θ : (String → Rat) → String → Rat} {k : Nat}
         subst hs hc
         exact List.Forall₂.cons ⟨rfl, hlen, h.set x v v' (h d v v' hg hg')⟩ List.Forall₂.nil
 
-theorem scaleS_sim {θ : (String → Rat) → String → Rat} {k : Nat} (w : Rat) {Da Db : WD}
-    (h : List.Forall₂ (PRelS θ k) Da Db) :
-    List.Forall₂ (PRelS θ k) (Da.map (fun x => (w * x.1, x.2))) (Db.map (fun x => (w * x.1, x.2))) := by
+theorem scaleS_sim {θ : (String → Rat) → String → Rat} {pre : List Atom} (w : Rat) {Da Db : WD}
+    (h : List.Forall₂ (PRelS θ pre) Da Db) :
+    List.Forall₂ (PRelS θ pre) (Da.map (fun x => (w * x.1, x.2))) (Db.map (fun x => (w * x.1, x.2))) := by
   induction h with
   | nil => exact List.Forall₂.nil
   | @cons a b _ _ hab _ ih =>
     simp only [List.map_cons]
     exact List.Forall₂.cons ⟨by rw [hab.1], hab.2⟩ ih
 
-theorem bindS_sim {θ : (String → Rat) → String → Rat} {k : Nat} {f f' : Path → M WD} {Ds Dc : WD}
-    (hd : List.Forall₂ (PRelS θ k) Ds Dc)
-    (hf : ∀ a b, PRelS θ k a b → ∀ Da Db, f a.2 = .ok Da → f' b.2 = .ok Db → List.Forall₂ (PRelS θ k) Da Db)
-    {Es Ec : WD} (hs : bindW Ds f = .ok Es) (hc : bindW Dc f' = .ok Ec) : List.Forall₂ (PRelS θ k) Es Ec := by
+theorem bindS_sim {θ : (String → Rat) → String → Rat} {pre : List Atom} {f f' : Path → M WD} {Ds Dc : WD}
+    (hd : List.Forall₂ (PRelS θ pre) Ds Dc)
+    (hf : ∀ a b, PRelS θ pre a b → ∀ Da Db, f a.2 = .ok Da → f' b.2 = .ok Db → List.Forall₂ (PRelS θ pre) Da Db)
+    {Es Ec : WD} (hs : bindW Ds f = .ok Es) (hc : bindW Dc f' = .ok Ec) : List.Forall₂ (PRelS θ pre) Es Ec := by
   induction hd generalizing Es Ec with
   | nil =>
     rw [bindW_nil_ok hs, bindW_nil_ok hc]
@@ -522,10 +525,10 @@ theorem bindS_sim {θ : (String → Rat) → String → Rat} {k : Nat} {f f' : P
     subst hw
     exact forall₂_append' (scaleS_sim w (hf _ _ hab A A' hA hA')) (ih hB hB')
 
-theorem blockS_sim {θ : (String → Rat) → String → Rat} {k : Nat}
-    (hθ : ∀ τ i, θ τ (atomName i) = τ (atomName (k + i))) (blk : List Stmt) (hok : blk.all stmtOKC = true)
-    {ps pc : Path} (h : SRel θ ps.vals pc.vals) (hlen : pc.atoms.length = k + ps.atoms.length) {Ds Dc : WD}
-    (hs : execBlock blk ps = .ok Ds) (hc : execBlock blk pc = .ok Dc) : List.Forall₂ (PRelS θ k) Ds Dc := by
+theorem blockS_sim {θ : (String → Rat) → String → Rat} {pre : List Atom}
+    (hθ : ∀ τ i, θ τ (atomName i) = τ (atomName (pre.length + i))) (blk : List Stmt) (hok : blk.all stmtOKC = true)
+    {ps pc : Path} (h : SRel θ ps.vals pc.vals) (hlen : pc.atoms = pre ++ ps.atoms) {Ds Dc : WD}
+    (hs : execBlock blk ps = .ok Ds) (hc : execBlock blk pc = .ok Dc) : List.Forall₂ (PRelS θ pre) Ds Dc := by
   induction blk generalizing ps pc Ds Dc with
   | nil =>
     rw [execBlock_nil, pure_ok] at hs hc
@@ -543,10 +546,10 @@ theorem blockS_sim {θ : (String → Rat) → String → Rat} {k : Nat}
     | simult xs rhss => simp [stmtOKC] at hok
     | ite c t e => simp [stmtOKC] at hok
 
-theorem iterS_sim {θ : (String → Rat) → String → Rat} {k : Nat}
-    (hθ : ∀ τ i, θ τ (atomName i) = τ (atomName (k + i))) (P : Program) (hok : P.body.all stmtOKC = true)
-    {ps pc : Path} (h : SRel θ ps.vals pc.vals) (hlen : pc.atoms.length = k + ps.atoms.length) {Ds Dc : WD}
-    (hs : iter P ps = .ok Ds) (hc : iter P pc = .ok Dc) : List.Forall₂ (PRelS θ k) Ds Dc := by
+theorem iterS_sim {θ : (String → Rat) → String → Rat} {pre : List Atom}
+    (hθ : ∀ τ i, θ τ (atomName i) = τ (atomName (pre.length + i))) (P : Program) (hok : P.body.all stmtOKC = true)
+    {ps pc : Path} (h : SRel θ ps.vals pc.vals) (hlen : pc.atoms = pre ++ ps.atoms) {Ds Dc : WD}
+    (hs : iter P ps = .ok Ds) (hc : iter P pc = .ok Dc) : List.Forall₂ (PRelS θ pre) Ds Dc := by
   simp only [iter] at hs hc
   obtain ⟨b, hb, hs⟩ := bind_ok.mp hs
   obtain ⟨b', hb', hc⟩ := bind_ok.mp hc
@@ -636,8 +639,8 @@ theorem satΓ_soundS {θ : (String → Rat) → String → Rat} {Γ : TypeEnv} {
       refine ⟨c, this, fun τ => ?_⟩
       rw [h e.1 p v' hg hv' τ, isConst_sound hk]
 
-theorem inv_transferS {θ : (String → Rat) → String → Rat} {k : Nat} {Γ : TypeEnv} {Ds Dc : WD}
-    (hsim : List.Forall₂ (PRelS θ k) Ds Dc) (hbad : badPath Γ Ds = none) : AllInv (InvS Γ) Dc := by
+theorem inv_transferS {θ : (String → Rat) → String → Rat} {pre : List Atom} {Γ : TypeEnv} {Ds Dc : WD}
+    (hsim : List.Forall₂ (PRelS θ pre) Ds Dc) (hbad : badPath Γ Ds = none) : AllInv (InvS Γ) Dc := by
   intro wq hwq hne
   obtain ⟨a, ha, hr⟩ := forall₂_mem_right hsim hwq
   exact satΓ_soundS hr.2.2 (badPath_none hbad a ha (by rw [hr.1]; exact hne))
@@ -699,8 +702,9 @@ theorem stepS_preserves {Γ0 Γ : TypeEnv} {P : Program} {xs : List String} (hF 
   obtain ⟨Ds, hDs, hbad⟩ := stepCex_none (hstep _ (stateOf_memS hne hq))
   have hrel : SRel (theta q.atoms.length q.vals) (assignStore (freeStore xs) (stateOf Γ0 q.vals)) q.vals :=
     srel_assign _ (stateOf_agreesS hq) _ (srel_free xs hat [] (srel_nil _ _))
-  exact inv_transferS (k := q.atoms.length)
-    (iterS_sim (theta_atom _ _) P (fragmentC_parts hF).2 (ps := ⟨_, []⟩) hrel (by simp) hDs hD) hbad
+  exact inv_transferS (pre := q.atoms)
+    (iterS_sim (θ := theta q.atoms.length q.vals) (pre := q.atoms) (theta_atom _ _) P (fragmentC_parts hF).2
+      (ps := ⟨_, []⟩) hrel (List.append_nil _).symm hDs hD) hbad
 
 /-- **V1 with continuous draws (from n = 0).**  If `checkInductiveC` accepts, then for EVERY `n` and EVERY initial
     store `σ₀` (no assumption on its values): on every path of non-zero weight of `run P false n σ₀` every
@@ -721,9 +725,9 @@ theorem checkInductiveC_sound0 {cap : Nat} {Γ0 Γ : TypeEnv} {P : Program}
     (fun q hq Dq hDq => (stepS_preserves hF hat hne hstep q hq Dq hDq).mono (fun _ hi => subEnv_invS hsub hi))
     n hrun
   have hrel : SRel (theta 0 σ₀) (freeStore (symVars Γ P [])) σ₀ := srel_free _ hat [] (srel_nil _ _)
-  exact inv_transferS (k := 0)
-    (blockS_sim (theta_atom _ _) P.init (fragmentC_parts hF).1 (ps := ⟨_, []⟩) (pc := ⟨σ₀, []⟩) hrel (by simp)
-      h0 hDc) hb0
+  exact inv_transferS (pre := [])
+    (blockS_sim (θ := theta 0 σ₀) (pre := []) (theta_atom 0 σ₀) P.init (fragmentC_parts hF).1 (ps := ⟨_, []⟩)
+      (pc := ⟨σ₀, []⟩) hrel rfl h0 hDc) hb0
 
 /-- **V1 with continuous draws (after at least one iteration)**: the same for all `Γ`-typed variables on
     `run P false (n+1) σ₀`. -/
